@@ -67,8 +67,7 @@ func (m *Map[K, V]) Set(key K, val V) {
 
 // Get returns the value corresponding to the given key, or its zero value if the key doesn't exist in the map.
 func (m *Map[K, V]) Get(key K) V {
-	v, _, _ := m.shards[m.hasher(key)&m.mask].Get(key)
-	return v
+	return m.shards[m.hasher(key)&m.mask].Peek(key)
 }
 
 func (m *Map[K, V]) Contains(key K) bool {
@@ -183,6 +182,14 @@ func (s *shard[K, V]) Get(key K) (val V, wait <-chan struct{}, first bool) {
 	return
 }
 
+// Peek returns the value for a key, or its zero value if it has not been added.
+// Unlike Get it never registers anything for the key, so a plain lookup has no effect on the map.
+func (s *shard[K, V]) Peek(key K) V {
+	s.l.RLock()
+	defer s.l.RUnlock()
+	return s.m[key].Val
+}
+
 // Values returns a copy of all the targets currently in the map.
 func (s *shard[K, V]) Values() []V {
 	s.l.RLock()
@@ -200,8 +207,8 @@ func (s *shard[K, V]) Contains(key K) bool {
 	s.l.RLock()
 	defer s.l.RUnlock()
 
-	_, ok := s.m[key]
-	return ok
+	v, ok := s.m[key]
+	return ok && v.Wait == nil // a key that is only being awaited has not been added
 }
 
 // Range calls f for each key-value pair in this shard.
